@@ -50,9 +50,11 @@ class ProfileModel:
                     obj = cls_tables.setdefault("Profile." + tgt.id, fresh())
                     for owner in ("Profile", "self", "cls"):
                         env[f"{owner}.{tgt.id}"] = obj
+        self.funcs = funcs
         self.init = Lifted(repo.func("profile::Profile.__init__"), funcs, env=env)
         self.update = Lifted(repo.func("profile::Profile.update"), funcs, env=env)
         self.write = Lifted(repo.func("profile::Profile.get_sam_profile_data"), funcs, env=env)
+        self.write.funcs = funcs   # shared: a rule may plug in an alignment-file stub ("pysam.AlignmentFile") afterwards
         funcs["Profile.get_sam_profile_data"] = self.write
         self.load = Lifted(repo.func("profile::Profile.load"), funcs, env=env)
         funcs["Profile.load"] = self.load
